@@ -139,7 +139,15 @@ impl Prop for C07 {
             let precision = rng.range(0, 17);
             let producer = match rng.below(5) {
                 0 | 1 => Producer::View {
-                    spec: gen::gen_spec(&mut rng, 6, 7, max_elems, false),
+                    spec: if rng.chance(1, 12) {
+                        let target = *rng.pick(&[4095usize, 4097, 5000, 8193]);
+                        let shape = gen::gen_large_shape(&mut rng, 4, target);
+                        let n: usize = shape.iter().product();
+                        let vals: Vec<f64> = (0..n).map(|_| gen::gen_value(&mut rng, 2)).collect();
+                        Spec::from_vals(shape, &vals)
+                    } else {
+                        gen::gen_spec(&mut rng, 6, 7, max_elems, false)
+                    },
                     npy_out: rng.chance(1, 2),
                     precision,
                 },
@@ -162,7 +170,16 @@ impl Prop for C07 {
                 rd_rest: *rng.pick(&[1usize, 5, 64, 8192]),
             };
         }
-        let spec = gen::gen_spec(&mut rng, 6, 7, max_elems, false);
+        let mut spec = gen::gen_spec(&mut rng, 6, 7, max_elems, false);
+        if rng.chance(1, 25) {
+            // large spectra: sizes around and beyond powers of two (internal block sizes)
+            let target = *rng.pick(&[1000usize, 4095, 4096, 4097, 4200, 5000, 8191, 8193, 10000]);
+            let shape = gen::gen_large_shape(&mut rng, 6, target);
+            let n: usize = shape.iter().product();
+            let fam = *rng.pick(&[0u64, 2, 4]);
+            let vals: Vec<f64> = (0..n).map(|_| gen::gen_value(&mut rng, fam)).collect();
+            spec = Spec::from_vals(shape, &vals);
+        }
         let npy = rng.chance(1, 2);
         let precision = rng.range(0, 17);
         let wsched = gen_schedule(&mut rng, 256, &[10, 64, 128]);
@@ -212,6 +229,9 @@ impl Prop for C07 {
                 out.count(if special { "values.with_nan_or_inf" } else { "values.finite" }, 1);
                 out.count(&format!("format.{fmt}"), 1);
                 out.count(&format!("axes.{}", spec.shape.len()), 1);
+                if spec.bits.len() > 4096 {
+                    out.count("size.more_than_4096_entries", 1);
+                }
                 if *npy {
                     let trace = new_trace();
                     let rd = BufReader::with_capacity(
@@ -422,6 +442,7 @@ impl Prop for C07 {
             "format.text",
             "axes.6",
             "text_npy_text.checked",
+            "size.more_than_4096_entries",
             "l2.pipeline.pipe",
             "l2.pipeline.file",
             "l2.consumer.view",
